@@ -192,9 +192,7 @@ def validate(seed, tier):
             for L in (1, 2, 3):
                 inp = concrete.random_state_input(rng, cls, L)
                 inp.update(mode=mode)
-                f = concrete.CHECKS['orthonormalize'](inp)
-                if f:
-                    raise runner.HarnessError(f'concrete orthonormalize check fails on the unchanged tree: {f}')
+                runner.concrete_check('orthonormalize', inp)
                 n += 1
     # shimmed path against plain NumPy
     qd = np.array([0, 1]); qD = [np.array([0]), np.array([0, 1, 1]), np.array([1])]
